@@ -12,7 +12,7 @@ Definition pvalid_of (c : pcls) (p : list (string * Q)) : bool :=
   | PFuzzy => in01 (qget p "rho") && Qle_bool 0 (qget p "alpha") && in01 (qget p "beta") && negb (Qeq_bool (qget p "beta") 0)
   | PART1 => in01 (qget p "rho") && Qle_bool 1 (qget p "L")
   | PART2A => in01 (qget p "rho") && in01 (qget p "alpha") && in01 (qget p "beta")
-  | PHyper => in01 (qget p "rho") && Qle_bool 0 (qget p "alpha") && in01 (qget p "beta")
+  | PHyper => in01 (qget p "rho") && Qle_bool 0 (qget p "alpha") && in01 (qget p "beta") && negb (Qle_bool (qget p "r_hat") 0)
   end.
 
 Inductive pop :=
